@@ -277,6 +277,13 @@ def check(run):
             lkb = {f.cfg.node_block(c) for c in lks} - {None}
             for lp in [n_ for n_ in f.all_nodes() if n_['k'] in ('while', 'for', 'do') and is_node(n_.get('cond')) and any(y is psets[0] for y in walk(n_))]:
                 cb = f.cfg.node_block(lp['cond'])
+                epn = q.render(f, psets[0].get('obj'))
+                # the loop test may itself be the lookup: a call in the condition that is given the registry and the current endpoint
+                test_looks_up = any(x['k'] == 'call' and any(q.render(f, a_) == epn for a_ in x.get('args', [])) and any('m_' in q.render(f, a_) for a_ in list(x.get('args', [])) + ([x['obj']] if is_node(x.get('obj')) else []) if q.render(f, a_) != epn)
+                                    for x in walk(lp['cond']))
+                if test_looks_up:
+                    run.ok('R5', 'probe-looks-every-candidate-up', fname, f.loc(lp), 'the loop test itself looks the current candidate up: ' + q.render(f, lp['cond'])[:80])
+                    continue
                 stale = [c for c in psets if cb is not None and f.cfg.node_block(c) not in lkb and cb in f.cfg.reach_from(f.cfg.node_block(c), avoid=lkb)]
                 run.check(not stale and bool(lks), 'R5', 'probe-looks-every-candidate-up', fname, f.loc(stale[0]) if stale else f.loc(lp),
                           'after the candidate port is changed the loop test is reached again without the registry having been asked about the new endpoint (the iterator is stepped, not looked up): once the candidate wraps to the bottom of the range a port that is taken is handed to the final duplicate test as free - bind(port 0) fails with address_in_use although thousands of ports are free',
